@@ -125,6 +125,7 @@ pub struct Local {
     violations: Vec<Violation>,
     samples: Vec<String>,
     distinct: std::collections::HashSet<u64>,
+    text_form_not_parsed: u64,
 }
 
 fn v(l: &mut Local, sig: &str, what: String, case: &serde_json::Value) {
@@ -167,6 +168,30 @@ pub fn check_one(t: &RTerm, version: (usize, usize, usize), case: serde_json::Va
         }
         Ok(Err(e)) => v(l, "decode-rejects|debruijn", format!("from_flat rejects the bytes of {shown}: {e}"), &case),
         Err(p) => v(l, "decode-panics|debruijn", format!("from_flat panicked on the bytes of {shown}: {p}"), &case),
+    }
+    // the text path (`aiken uplc encode`): print, parse, convert, encode - same bytes.  The
+    // textual parser builds constants through its own constructors (Data::constr, ...), which
+    // may choose another representation of the same value.
+    // (programs over the constant-rich alphabet; the structural alphabet has four constants)
+    let text_path = case["alphabet"] != "structural";
+    if text_path {
+        l.checks += 1;
+    }
+    let pdc = pd.clone();
+    match guarded(move || {
+        if !text_path {
+            return Ok(vec![]);
+        }
+        let text = pdc.to_pretty();
+        let named = uplc::parser::program(&text).map_err(|e| format!("does not parse: {e}"))?;
+        let d: Program<DeBruijn> = named.try_into().map_err(|e| format!("does not convert: {e}"))?;
+        d.to_flat().map_err(|e| e.to_string())
+    }) {
+        Ok(Ok(b)) if b == bytes || !text_path => {}
+        Ok(Ok(b)) => v(l, "bytes-differ-through-the-text-form", format!("printing and parsing {shown} and encoding the result gives {} instead of {}", short_hex(&b), short_hex(&bytes)), &case),
+        // whether every program prints parsably is C15's matter
+        Ok(Err(_)) => l.text_form_not_parsed += 1,
+        Err(p) => v(l, "text-path-panics", format!("{shown}: {p}"), &case),
     }
     // FakeNamedDeBruijn decode of the same bytes
     l.checks += 1;
@@ -451,9 +476,11 @@ pub fn part(run: &mut Run, tier: Tier) {
     let mut cases = 0;
     let mut checks = 0;
     let mut distinct = std::collections::HashSet::new();
+    let mut not_parsed = 0u64;
     for l in out.results {
         cases += l.cases;
         checks += l.checks;
+        not_parsed += l.text_form_not_parsed;
         distinct.extend(l.distinct);
         run.violations_extend(l.violations);
         for s in l.samples {
@@ -468,6 +495,10 @@ pub fn part(run: &mut Run, tier: Tier) {
     run.set("programs_structural_alphabet", t2);
     run.set("programs_structural_max_size", struct_max as u64);
     run.set("boundary_constants", boundary_consts().len() as u64);
+    run.set("programs_whose_text_form_did_not_parse_back", not_parsed);
+    if not_parsed * 2 > t1 {
+        run.machinery_error("the text path is vacuous: most programs do not parse back");
+    }
     run.add("states", cases);
     run.add("transitions", checks);
     run.add("traces_validated_against_impl", cases);
@@ -483,7 +514,7 @@ pub fn run(tier: Tier, replay: Option<String>) -> i32 {
     }
     let mut run = Run::new("C08", tier);
     part(&mut run, tier);
-    run.set("rule", "every closed program up to the size bound over (a) all builtins + serialisation-boundary constants and (b) a small structural alphabet, in de Bruijn / named de Bruijn / named form and four version triples; distinct_nontrivial = distinct flat encodings");
+    run.set("rule", "every closed program up to the size bound over (a) all builtins + serialisation-boundary constants and (b) a small structural alphabet, in de Bruijn / named de Bruijn / named form and four version triples; the text path (print, parse, convert, encode) must give the same bytes; distinct_nontrivial = distinct flat encodings");
     run.finish()
 }
 
